@@ -7,6 +7,9 @@ import Driver.Suites.WQ
 import Driver.Suites.Cache
 import Driver.Suites.PD
 import Driver.Suites.PW
+import Driver.Suites.Blocklist
+import Driver.Suites.AddrList
+import Driver.Suites.Admission
 /-! Table of suites known to the driver.  One line per suite (merge=union friendly). -/
 namespace Driver
 def registry : List Suite := [
@@ -22,5 +25,8 @@ def registry : List Suite := [
   Suites.PW.suitePW,
   Suites.PW.suiteBP,
   Suites.PW.suiteVF,
+  Suites.Blocklist.suite,
+  Suites.AddrList.suite,
+  Suites.Admission.suite,
 ]
 end Driver
